@@ -43,6 +43,12 @@ pub enum Ev {
     Eof,
     /// the next write on the transport fails
     WriteErrorNext,
+    /// back-pressure: the next write on the transport accepts `n` bytes and then stays pending
+    WriteBlockNext(usize),
+    /// the transport accepts writes again
+    WriteUnblock,
+    /// advance the clock by this many milliseconds while a write is blocked (no timer is armed)
+    AdvanceBy(u64),
     /// advance the clock exactly to the earliest armed timer (deadline or retry wait)
     AdvanceToNext,
     /// advance by one millisecond (earliest timer is further away)
@@ -117,6 +123,8 @@ pub enum Phase {
     Connecting,
     Idle,
     InFlight { req: MReq, tx: u16, deadline: u64 },
+    /// the request's frame is partly written and the transport does not take more
+    Writing { req: MReq, tx: u16, rest: Vec<u8> },
     WaitFailed(u64),
     WaitDisc(u64),
     Done,
@@ -146,6 +154,7 @@ pub struct ClientModel {
     /// the not yet delivered remainder of a frame the peer started to send
     pub partial_rest: Option<Vec<u8>>,
     pub write_error_armed: bool,
+    pub write_block_armed: Option<usize>,
     /// future-style requests whose caller future is alive: (request id, handle)
     pub caller_futures: Vec<(usize, usize)>,
     /// requests that left the exactly-once accounting (caller dropped its future)
@@ -206,6 +215,7 @@ impl ClientModel {
             rxbuf: vec![],
             partial_rest: None,
             write_error_armed: false,
+            write_block_armed: None,
             caller_futures: vec![],
             abandoned: vec![],
             open: vec![],
@@ -291,6 +301,9 @@ impl ClientModel {
                     v.push(Ev::ReadError);
                     v.push(Ev::Eof);
                 }
+                Phase::Writing { .. } => {
+                    v.push(Ev::WriteUnblock);
+                }
                 Phase::Idle => {
                     if self.partial_rest.is_none() {
                         v.push(Ev::ReplyStale(1));
@@ -300,7 +313,7 @@ impl ClientModel {
                     }
                     v.push(Ev::ReadError);
                     v.push(Ev::Eof);
-                    if !self.write_error_armed {
+                    if !self.write_error_armed && self.write_block_armed.is_none() {
                         v.push(Ev::WriteErrorNext);
                     }
                 }
@@ -346,10 +359,10 @@ impl ClientModel {
 
     /// the task ends: everything still queued fails with shutdown
     fn finish(&mut self, e: &mut Expected, announce: bool) {
-        if let Phase::InFlight { req, .. } = self.phase.clone() {
+        if let Phase::InFlight { req, .. } | Phase::Writing { req, .. } = self.phase.clone() {
             self.complete(e, req.id, OutClass::Shutdown);
         }
-        if matches!(self.phase, Phase::Idle | Phase::InFlight { .. }) {
+        if matches!(self.phase, Phase::Idle | Phase::InFlight { .. } | Phase::Writing { .. }) {
             e.transport_dropped = true;
         }
         self.phase = Phase::Done;
@@ -382,6 +395,7 @@ impl ClientModel {
         self.rxbuf.clear();
         self.partial_rest = None;
         self.write_error_armed = false;
+        self.write_block_armed = None;
         e.states.push(MState::WaitAfterDisconnect(self.retry_min));
         self.phase = Phase::WaitDisc(self.now + self.retry_min);
     }
@@ -395,7 +409,7 @@ impl ClientModel {
     /// take commands from the queue while the task is able to
     fn pump(&mut self, e: &mut Expected) {
         loop {
-            if self.done() || matches!(self.phase, Phase::InFlight { .. }) {
+            if self.done() || matches!(self.phase, Phase::InFlight { .. } | Phase::Writing { .. }) {
                 return;
             }
             let cmd = match self.chan.pop_front() {
@@ -459,6 +473,13 @@ impl ClientModel {
                         if self.write_error_armed {
                             self.complete(e, r.id, OutClass::Io("BrokenPipe".into()));
                             self.session_lost(e);
+                        } else if let Some(n) = self.write_block_armed.take() {
+                            let f = self.frame(tx, r.unit, &encode_request(&r.req));
+                            let n = n.min(f.len() - 1);
+                            if n > 0 {
+                                e.wire.push(f[..n].to_vec());
+                            }
+                            self.phase = Phase::Writing { req: r, tx, rest: f[n..].to_vec() };
                         } else {
                             e.wire.push(self.frame(tx, r.unit, &encode_request(&r.req)));
                             let deadline = self.now + r.timeout_ms;
@@ -635,6 +656,7 @@ impl ClientModel {
                 self.rxbuf.clear();
         self.partial_rest = None;
                 self.write_error_armed = false;
+                self.write_block_armed = None;
                 e.states.push(MState::Connected);
                 self.phase = Phase::Idle;
             }
@@ -670,6 +692,22 @@ impl ClientModel {
             }
             Ev::WriteErrorNext => {
                 self.write_error_armed = true;
+            }
+            Ev::WriteBlockNext(n) => {
+                self.write_block_armed = Some(*n);
+            }
+            Ev::WriteUnblock => {
+                if let Phase::Writing { req, tx, rest } = self.phase.clone() {
+                    e.wire.push(rest);
+                    // the response timeout starts when the request has been transmitted
+                    let deadline = self.now + req.timeout_ms;
+                    self.phase = Phase::InFlight { req, tx, deadline };
+                }
+                self.write_block_armed = None;
+            }
+            Ev::AdvanceBy(ms) => {
+                assert!(self.next_timer().is_none(), "AdvanceBy is for states without a timer");
+                self.now += ms;
             }
             Ev::AdvanceToNext | Ev::Advance1 | Ev::AdvanceToJustBefore => {
                 let t = self.next_timer().expect("timer armed");
